@@ -11,7 +11,7 @@ Definition all_entries (sc : scenario) : list (Z * Z * Z) :=
 Definition vdelta_spec (f : frame_in) : Q := if f_paused f then 0%Q else (qmin (f_real f) (1 # 4) * f_speed f)%Q.
 
 (* history per entry: list of (state before the frame, delta), most recent first; restarted when the instance is (re)built *)
-Fixpoint judge_steps (sc : scenario) (ents : list (Z * Z * Z)) (hist : list (option (state * list (state * Q)))) (steps : list step) (outs : list out) : list (Z * bool) :=
+Fixpoint judge_steps (sc : scenario) (ents : list (Z * Z * Z)) (hist : list (option (state * list (state * Q)))) (before : out) (steps : list step) (outs : list out) : list (Z * bool) :=
   match steps, outs with
   | st :: steps', o :: outs' =>
       let upd := map (fun xh =>
@@ -35,14 +35,15 @@ Fixpoint judge_steps (sc : scenario) (ents : list (Z * Z * Z)) (hist : list (opt
                        match h with Some hh => Some hh | None => None end)
             end
         end) (combine ents hist) in
-      (8, negb (x_panicked o)) :: concat (map fst upd) ++ judge_steps sc ents (map snd upd) steps' outs'
+      (8, negb (x_panicked o)) :: (30, match st with SOp _ => ops_leave_others before o | SFrame _ => true end) ::
+      concat (map fst upd) ++ judge_steps sc ents (map snd upd) o steps' outs'
   | [], [] => []
   | _, _ => [(9, false)]
   end.
 
 Definition ok (p : scenario * trace_t) : Z :=
   match p with
-  | (sc, trace outs) => let ents := all_entries sc in first_fail (judge_steps sc ents (map (fun _ => None) ents) (s_steps sc) outs)
+  | (sc, trace outs) => let ents := all_entries sc in first_fail (judge_steps sc ents (map (fun _ => None) ents) (mkOut [] [] [] [] [] [] [] true true false) (s_steps sc) outs)
   | (_, panic) => 10
   end.
 Definition bad_agree := bad agree_full.
